@@ -358,7 +358,7 @@ type orderSpec struct {
 // instrumented copy of the library.
 func C17() *sim.Check {
 	sitesByID := loadSites()
-	b := &sim.Batch{Name: "orders", Quick: 900, Thorough: 30_000, Isolated: true, PerProc: 40, Workers: 16, ChildTimeout: 900 * time.Second, Env: []string{"TZ=America/St_Johns"}}
+	b := &sim.Batch{Name: "orders", Quick: 900, Thorough: 30_000, Isolated: true, PerProc: 40, Workers: 16, ChildTimeout: 1800 * time.Second, StallAfter: 300 * time.Second, Env: []string{"TZ=America/St_Johns"}}
 	b.ChildInit = startDetHelper
 	b.Run = func(c *sim.RunCtx) *sim.Outcome {
 		t := c.T
